@@ -22,7 +22,10 @@ import ClairModel.Model.MatchersLang
     ctl <versionFilter 0|1> <authoritative 0|1> <nil|set> <lkind> <l..> <ukind> <u..> <vkind> <v..> <matcher> <vuln fields…>
                                          -> true | false | err | hang
     rpmstr <a>                           -> hex of NewVersion(a).String()
-    archop <op> <a> <b> <re>             -> true | false
+    archop <op> <a> <b> <re>             -> true | false     (<re> is ignored for literal alternations: the model computes it)
+    ctlm <versionFilter> <authoritative> <nil|set> <lkind> <l..> <ukind> <u..> <vkind> <v..> <matcher> <vuln fields> <gates>
+                                         -> err | hang | <times the advisory is listed>
+         one package in several records; <gates> = comma separated rhel gate bits, one per record ("-" for other matchers)
     vuln <matcher> <pkgver> <pkgarch> <fixed> <vulnpkgver> <vulnpkgarch> <archop> <re> [<gate>]
                                          -> true | false | err | hang
 
@@ -143,7 +146,9 @@ def answer (l : String) : Option String :=
   | ["apkcmp2", a, b] => do pure (ordStr (VerApk.compare (← str a) (← str b)))
   | ["apkvalid", a] => do pure (toString (VerApk.valid (← str a)))
   | ["archop", op, a, b, re] => do
-    pure (toString (archCmp (← op.toNat?) (← str a) (← str b) (← parseRe re)))
+    let a ← str a
+    let b ← str b
+    pure (toString (archCmp (← op.toNat?) a b (reVerdict b a (← parseRe re))))
   | ["urlq", q] => do
     match parseQuery (← str q) with
     | none => pure "err"
@@ -169,6 +174,19 @@ def answer (l : String) : Option String :=
     let r : NRange := { lower := ← parseNVersion lk lv, upper := ← parseNVersion uk uv }
     let v ← parseNVersion vk vv
     pure (toString (rangeContains (if tag == "nil" then none else some r) v))
+  | ["ctlm", vf, au, tag, lk, lv, uk, uv, nk, nv, m, pv, pa, fx, vv, va, op, re, gates] => do
+    let rg : NRange := { lower := ← parseNVersion lk lv, upper := ← parseNVersion uk uv }
+    let nver ← parseNVersion nk nv
+    let hit := dbSideHit (if tag == "nil" then none else some rg) nver
+    let p : Pkg := { version := ← str pv, arch := ← str pa }
+    let v : Vuln := { fixed := ← str fx, pkgVersion := ← str vv, pkgArch := ← str va,
+                      archOp := ← op.toNat?, re := ← parseRe re }
+    let outs ← (gates.splitOn ",").mapM fun g =>
+      if g == "-" then vulnLine m p v none else do vulnLine m p v (some (← parseGate g))
+    pure (match controllerMatch (vf == "1") (au == "1") hit outs with
+      | .err => "err"
+      | .hang => "hang"
+      | .count n => toString n)
   | "ctl" :: vf :: au :: tag :: lk :: lv :: uk :: uv :: nk :: nv :: m :: pv :: pa :: fx :: vv :: va :: op :: re :: rest => do
     let rg : NRange := { lower := ← parseNVersion lk lv, upper := ← parseNVersion uk uv }
     let nver ← parseNVersion nk nv
